@@ -458,13 +458,13 @@ static size_t firstFilledFrame(const ezc3d::DataNS::Data& data)
 void ezc3d::c3d::updateHeader()
 {
     // Parameter is always consider as the right value. If there is a discrepancy between them, change the header
-    float pointRate(parameters().group("POINT").parameter("RATE").valuesAsFloat()[0]);
+    float pointRate(parameters().group("POINT").parameter("RATE").valuesAsFloat().at(0));
     float buffer(10000); // For decimal truncature
     if (static_cast<int>(pointRate*buffer) != static_cast<int>(header().frameRate()*buffer)){
         _header->frameRate(pointRate);
     }
-    if (static_cast<size_t>(parameters().group("POINT").parameter("USED").valuesAsInt()[0]) != header().nb3dPoints()){
-        _header->nb3dPoints(static_cast<size_t>(parameters().group("POINT").parameter("USED").valuesAsInt()[0]));
+    if (static_cast<size_t>(parameters().group("POINT").parameter("USED").valuesAsInt().at(0)) != header().nb3dPoints()){
+        _header->nb3dPoints(static_cast<size_t>(parameters().group("POINT").parameter("USED").valuesAsInt().at(0)));
     }
 
     // Compare the subframe with data when possible, otherwise go with the parameters
@@ -480,7 +480,7 @@ void ezc3d::c3d::updateHeader()
                     _header->nbAnalogByFrame(1);
             } else {
                 // The ratio of two rates stored as float may fall just below the integer it stands for (23.976 Hz x 15)
-                size_t nbSubframes(static_cast<size_t>(std::round(parameters().group("ANALOG").parameter("RATE").valuesAsFloat()[0] / pointRate)));
+                size_t nbSubframes(static_cast<size_t>(std::round(parameters().group("ANALOG").parameter("RATE").valuesAsFloat().at(0) / pointRate)));
                 if (nbSubframes != static_cast<size_t>(header().nbAnalogByFrame()))
                     _header->nbAnalogByFrame(nbSubframes);
             }
@@ -489,16 +489,16 @@ void ezc3d::c3d::updateHeader()
 
     // Should always be greater than 0, but we have to take in account Optotrak lazyness
     if (parameters().group("ANALOG").nbParameters()){
-        if (static_cast<size_t>(parameters().group("ANALOG").parameter("USED").valuesAsInt()[0]) != header().nbAnalogs())
-            _header->nbAnalogs(static_cast<size_t>(parameters().group("ANALOG").parameter("USED").valuesAsInt()[0]));
+        if (static_cast<size_t>(parameters().group("ANALOG").parameter("USED").valuesAsInt().at(0)) != header().nbAnalogs())
+            _header->nbAnalogs(static_cast<size_t>(parameters().group("ANALOG").parameter("USED").valuesAsInt().at(0)));
     } else
         _header->nbAnalogs(0);
 
     // The number of frames reported by the header depends on the number of points and analogs,
     // so it must be compared once these are up to date
-    if (static_cast<size_t>(parameters().group("POINT").parameter("FRAMES").valuesAsInt()[0]) != header().nbFrames()){
+    if (static_cast<size_t>(parameters().group("POINT").parameter("FRAMES").valuesAsInt().at(0)) != header().nbFrames()){
         _header->firstFrame(0);
-        _header->lastFrame(static_cast<size_t>(parameters().group("POINT").parameter("FRAMES").valuesAsInt()[0]) - 1);
+        _header->lastFrame(static_cast<size_t>(parameters().group("POINT").parameter("FRAMES").valuesAsInt().at(0)) - 1);
     }
 }
 
